@@ -1,4 +1,5 @@
 import BtcwVerif.Model.Ledger
+import BtcwVerif.Model.TxInv
 -- engine: txstore
 import Driver.Proto
 open Proto TxStore
@@ -326,6 +327,13 @@ def step (st : St) (line : String) : St × String :=
     (st, specNA st fun _ =>
       let l := (Ledger.watchSet st.L).mergeSort opLe
       if l.isEmpty then "ok" else "ok " ++ joinWith "," (l.map showOp))
+  | ["inv", top] =>
+    match top.toInt? with
+    | some top => (st, specNA st fun _ =>
+        let t := (grid st.maturity top).all fun (m, sy) =>
+          balance st.s st.now st.maturity m sy == .ok (storeTruth st.s st.now st.maturity m sy)
+        s!"ok inv={b01 (invB st.s)} truth={b01 t}")
+    | none => (st, "bad-op")
   | ["spec", "facts"] => (st, specNA st fun _ => "ok " ++ showFacts st.L)
   | _ => (st, "bad-op")
 
